@@ -31,8 +31,10 @@ ASSUMPTIONS = [
     "n <= 5 samples",
 ]
 HEIGHTS = [-1.0, 0.0, 0.5, 2.0, 2000.0]
-METRICS = {"quick": ["euclidean", "log_squared_euclidean"],
-           "thorough": ["euclidean", "log_squared_euclidean", "manhattan", "canberra", "chebyshev"]}
+# pearson / kullback_leibler are NOT symmetric: d(x_i, x_j) - the distance FROM sample i - is what counts
+METRICS = {"quick": ["euclidean", "log_squared_euclidean", "pearson"],
+           "thorough": ["euclidean", "log_squared_euclidean", "manhattan", "canberra", "chebyshev",
+                        "pearson", "kullback_leibler", "neyman"]}
 TINY = {"tiny": [0.0, 1e-6, 5e-6], "straddle": [0.0, 9e-6, 1.1e-5]}
 
 
@@ -254,7 +256,8 @@ def base_programs(shard, seed):
                 yield {"mode": "pre", "W": W.tolist()}, n
     else:
         _, lk, n, metric, a, b = shard
-        pts = E.lattice(lk, seed, positive=(metric == "canberra"))
+        from mc.oracles import axioms
+        pts = E.lattice(lk, seed, positive=(metric not in axioms.R_CLASS))
         for si in range(a, b):
             seq = E.sequence_at(len(pts), n, si)
             yield {"mode": "features", "X": [list(pts[i]) for i in seq], "metric": metric}, n
